@@ -31,9 +31,9 @@ def C05_rewrite_idempotent_stmt : Prop :=
 /-- Witness 1 (C05-relative-prefix-restripped): `--prefix-dir a`, key `a/a/x.c`, nothing on disk:
 reported as `a/x.c`; re-imported, `a/x.c` is reported as `x.c`. -/
 theorem C05_rewrite_relative_prefix_witness :
-    rewritePaths { prefixDir := some [97] } ⟨[], [], []⟩ [([97, 47, 97, 47, 120, 46, 99], {})]
+    rewritePaths { prefixDir := some [97] } { files := [], dirs := [], cwd := [] } [([97, 47, 97, 47, 120, 46, 99], {})]
       = .ok [⟨[97, 47, 120, 46, 99], [97, 47, 120, 46, 99], {}⟩] ∧
-    rewritePaths { prefixDir := some [97] } ⟨[], [], []⟩ [([97, 47, 120, 46, 99], {})]
+    rewritePaths { prefixDir := some [97] } { files := [], dirs := [], cwd := [] } [([97, 47, 120, 46, 99], {})]
       = .ok [⟨[120, 46, 99], [120, 46, 99], {}⟩] := by decide
 
 /-- Witness 2 (C05-source-dir-name-restripped): `--source-dir /x/foo` (an existing directory), key
@@ -59,16 +59,16 @@ reported absolute; re-imported, `/p/a.c` IS below the prefix and is reported as 
 record such paths: `/ws/obj/../src/a.c`.) The guard it violates is "the reported file exists below
 the source dir" — there the path is canonicalised and made relative to the source dir. -/
 theorem C05_rewrite_prefix_dotdot_witness :
-    rewritePaths { prefixDir := some [47, 112] } ⟨[], [], []⟩
+    rewritePaths { prefixDir := some [47, 112] } { files := [], dirs := [], cwd := [] }
         [([47, 120, 47, 46, 46, 47, 112, 47, 97, 46, 99], {})]
       = .ok [⟨[47, 112, 47, 97, 46, 99], [47, 112, 47, 97, 46, 99], {}⟩] ∧
-    rewritePaths { prefixDir := some [47, 112] } ⟨[], [], []⟩ [([47, 112, 47, 97, 46, 99], {})]
+    rewritePaths { prefixDir := some [47, 112] } { files := [], dirs := [], cwd := [] } [([47, 112, 47, 97, 46, 99], {})]
       = .ok [⟨[97, 46, 99], [97, 46, 99], {}⟩] := by decide
 
 theorem C05_rewrite_idempotent_false : ¬ C05_rewrite_idempotent_stmt := by
   intro h
   obtain ⟨rep', e1, e2⟩ := h _ _ _ _ rfl C05_rewrite_relative_prefix_witness.1
-  have e1' : rewritePaths { prefixDir := some [97] } ⟨[], [], []⟩ [([97, 47, 120, 46, 99], {})] = .ok rep' := e1
+  have e1' : rewritePaths { prefixDir := some [97] } { files := [], dirs := [], cwd := [] } [([97, 47, 120, 46, 99], {})] = .ok rep' := e1
   rw [C05_rewrite_relative_prefix_witness.2] at e1'
   cases e1'
   revert e2
@@ -206,9 +206,9 @@ example :
 
 /-- no options: `x/../foo\bar.c` is reported as `foo/bar.c`, which is reported as itself -/
 example :
-    rewritePaths {} ⟨[], [], []⟩ [([120, 47, 46, 46, 47, 102, 111, 111, 92, 98, 97, 114, 46, 99], {})]
+    rewritePaths {} { files := [], dirs := [], cwd := [] } [([120, 47, 46, 46, 47, 102, 111, 111, 92, 98, 97, 114, 46, 99], {})]
       = .ok [⟨[102, 111, 111, 47, 98, 97, 114, 46, 99], [102, 111, 111, 47, 98, 97, 114, 46, 99], {}⟩] ∧
-    rewritePaths {} ⟨[], [], []⟩ [([102, 111, 111, 47, 98, 97, 114, 46, 99], {})]
+    rewritePaths {} { files := [], dirs := [], cwd := [] } [([102, 111, 111, 47, 98, 97, 114, 46, 99], {})]
       = .ok [⟨[102, 111, 111, 47, 98, 97, 114, 46, 99], [102, 111, 111, 47, 98, 97, 114, 46, 99], {}⟩] := by
   decide
 
